@@ -385,15 +385,17 @@ class StreamResponse(
         if self._cookies:
             populate_with_cookies(headers, self._cookies)
 
+        if self._chunked and version != HttpVersion11:
+            # checked before anything is switched on in the connection's writer
+            raise RuntimeError(
+                "Using chunked encoding is forbidden "
+                f"for HTTP/{request.version.major}.{request.version.minor}"
+            )
+
         if self._compression:
             await self._start_compression(request)
 
         if self._chunked:
-            if version != HttpVersion11:
-                raise RuntimeError(
-                    "Using chunked encoding is forbidden "
-                    f"for HTTP/{request.version.major}.{request.version.minor}"
-                )
             if not self._must_be_empty_body:
                 writer.enable_chunking()
                 headers[hdrs.TRANSFER_ENCODING] = "chunked"
